@@ -650,10 +650,15 @@ Definition typed_attr_eqb (len : bool) (d : tdef) (x y : name * str) : bool :=
 Fixpoint perm_sub {A} (e : A -> A -> bool) (marked : A -> bool) (a b : list A) : bool :=
   match b with
   | [] => forallb marked a
-  | y :: r => match remove_first (fun y' x => e x y') y a with
-              | Some a' => perm_sub e marked a' r
-              | None => false
-              end
+  | y :: r =>
+      (* an unmarked partner first: the marked ones are the ones that may stay over *)
+      match remove_first (fun y' x => negb (marked x) && e x y') y a with
+      | Some a' => perm_sub e marked a' r
+      | None => match remove_first (fun y' x => e x y') y a with
+                | Some a' => perm_sub e marked a' r
+                | None => false
+                end
+      end
   end.
 
 Fixpoint ndoc_eqb_gen (len : bool) (fuel : nat) (s : schema) (ordered : option nat -> bool) (a b : ndoc) : bool :=
